@@ -146,7 +146,11 @@ impl OutputFormatter {
         let schema = batches[0].schema();
 
         // Write header
-        let headers: Vec<&str> = schema.fields().iter().map(|f| f.name().as_str()).collect();
+        let headers: Vec<String> = schema
+            .fields()
+            .iter()
+            .map(|f| csv_quote(f.name()))
+            .collect();
         writeln!(writer, "{}", headers.join(","))?;
 
         // Write data rows
@@ -207,7 +211,7 @@ impl OutputFormatter {
                     }
                     let col = batch.column(col_idx);
                     let value = self.format_json_value(col, row_idx);
-                    write!(writer, "\"{}\": {}", field_name, value)?;
+                    write!(writer, "{}: {}", json_string(field_name), value)?;
                 }
                 write!(writer, "}}")?;
                 row_count += 1;
@@ -269,12 +273,7 @@ impl OutputFormatter {
 
         let value = self.format_display_value(array, row);
 
-        // Quote if contains comma, quote, or newline
-        if value.contains(',') || value.contains('"') || value.contains('\n') {
-            format!("\"{}\"", value.replace('"', "\"\""))
-        } else {
-            value
-        }
+        csv_quote(&value)
     }
 
     /// Format a single value for JSON output
@@ -287,12 +286,12 @@ impl OutputFormatter {
             DataType::Utf8 => {
                 let arr = array.as_any().downcast_ref::<StringArray>().unwrap();
                 let val = arr.value(row);
-                format!("\"{}\"", val.replace('\\', "\\\\").replace('"', "\\\""))
+                json_string(val)
             }
             DataType::LargeUtf8 => {
                 let arr = array.as_any().downcast_ref::<LargeStringArray>().unwrap();
                 let val = arr.value(row);
-                format!("\"{}\"", val.replace('\\', "\\\\").replace('"', "\\\""))
+                json_string(val)
             }
             DataType::Boolean => {
                 let arr = array.as_any().downcast_ref::<BooleanArray>().unwrap();
@@ -332,15 +331,15 @@ impl OutputFormatter {
             }
             DataType::Float32 => {
                 let arr = array.as_any().downcast_ref::<Float32Array>().unwrap();
-                arr.value(row).to_string()
+                json_number(arr.value(row) as f64, arr.value(row).to_string())
             }
             DataType::Float64 => {
                 let arr = array.as_any().downcast_ref::<Float64Array>().unwrap();
-                arr.value(row).to_string()
+                json_number(arr.value(row), arr.value(row).to_string())
             }
             _ => {
                 // For other types, use display format with quotes
-                format!("\"{}\"", self.format_display_value(array, row))
+                json_string(&self.format_display_value(array, row))
             }
         }
     }
@@ -455,6 +454,45 @@ impl OutputFormatter {
                 format!("{:?}", array.as_ref())
             }
         }
+    }
+}
+
+/// RFC 4180 quoting: a field containing a comma, a double quote or a line
+/// break (CR or LF) is enclosed in double quotes with inner quotes doubled.
+fn csv_quote(value: &str) -> String {
+    if value.contains(',') || value.contains('"') || value.contains('\n') || value.contains('\r') {
+        format!("\"{}\"", value.replace('"', "\"\""))
+    } else {
+        value.to_string()
+    }
+}
+
+/// A JSON string literal (RFC 8259): quote, backslash and every control
+/// character escaped.
+fn json_string(value: &str) -> String {
+    let mut out = String::with_capacity(value.len() + 2);
+    out.push('"');
+    for c in value.chars() {
+        match c {
+            '"' => out.push_str("\\\""),
+            '\\' => out.push_str("\\\\"),
+            '\n' => out.push_str("\\n"),
+            '\r' => out.push_str("\\r"),
+            '\t' => out.push_str("\\t"),
+            c if (c as u32) < 0x20 => out.push_str(&format!("\\u{:04x}", c as u32)),
+            c => out.push(c),
+        }
+    }
+    out.push('"');
+    out
+}
+
+/// JSON has no NaN or infinity: emit those as strings of their display text.
+fn json_number(value: f64, text: String) -> String {
+    if value.is_finite() {
+        text
+    } else {
+        json_string(&text)
     }
 }
 
